@@ -7,6 +7,7 @@ import (
 	"bytes"
 	stded "crypto/ed25519"
 	"fmt"
+	"github.com/go-i2p/crypto/types"
 	"testing"
 	"time"
 
@@ -680,7 +681,14 @@ func checkLS(c Case, r *ev.Rec) error {
 	if err != nil {
 		return err
 	}
-	ls, err := lease_set.NewLeaseSet(dest, ek, rk, leases, priv)
+	var encKey types.ReceivingPublicKey = ek
+	if c.Defect == "encryption-key-size" {
+		if encKey, err = libkeys.PubKey(4, model.Fill(32, 9)); err != nil {
+			return err
+		}
+	}
+	r.Class(fmt.Sprintf("ls:dest-enc%d", id.EncType))
+	ls, err := lease_set.NewLeaseSet(dest, encKey, rk, leases, priv)
 	if c.Defect != "" {
 		r.Class("ls:defect:" + c.Defect)
 		if err == nil {
@@ -907,12 +915,12 @@ func genCase(t *rapid.T) Case {
 	case "ls":
 		s := gen.LeaseSetG(t, "ls")
 		s.Dest.SigType = rapid.SampledFrom([]int{7, 11, 0}).Draw(t, "sig")
-		s.Dest.EncType = 0
-		if s.Dest.SigType != 0 {
+		s.Dest.EncType = rapid.SampledFrom([]int{0, 0, 4}).Draw(t, "enc") // the LeaseSet's own key stays a 256-byte ElGamal key whatever the destination's certificate says
+		if s.Dest.SigType != 0 || s.Dest.EncType != 0 {
 			s.Dest.NullCert = false
 		}
 		c.LS = &s
-		c.Defect = defect("17-leases", "signing-key-size")
+		c.Defect = defect("17-leases", "signing-key-size", "encryption-key-size")
 	}
 	return c
 }
